@@ -235,7 +235,7 @@ fn corrupt(fen_text: &str, t: &mut Tape) -> (String, &'static str) {
 
 pub fn run(run: &mut Run) -> &'static str {
     // (a)+(b) round trips
-    let cases = run.tier.pick(40_000, 1_500_000);
+    let cases = run.tier.pick(200_000, 4_000_000);
     let strat = (pos_case(4..140), any::<u16>(), any::<u16>()).prop_map(|(pos, clock, number)| RoundTrip { pos, clock, number });
     run.proptest_part("round_trip", RULE, strat, cases, |c: &RoundTrip, st: &mut Stats| {
         for (i, gp) in c.pos.positions(Mix::General, 16, st).into_iter().enumerate() {
@@ -288,7 +288,7 @@ pub fn run(run: &mut Run) -> &'static str {
     });
 
     // (c) systematic corruptions of valid FENs
-    let cases = run.tier.pick(30_000, 1_000_000);
+    let cases = run.tier.pick(150_000, 3_000_000);
     run.proptest_part("corruptions", RULE, pos_case(8..120), cases, |c: &PosCase, st: &mut Stats| {
         let tp_data: Vec<u16> = match c {
             PosCase::Tape(t) => t.iter().rev().copied().collect(),
@@ -311,7 +311,7 @@ pub fn run(run: &mut Run) -> &'static str {
     });
 
     // (c) arbitrary and FEN-shaped strings
-    let cases = run.tier.pick(150_000, 5_000_000);
+    let cases = run.tier.pick(1_000_000, 20_000_000);
     let shaped = proptest::string::string_regex("[1-8pnbrqkPNBRQK]{0,9}(/[1-8pnbrqkPNBRQK]{0,9}){5,9}( [wbx-]{0,2})?( (-|[KQkqx]{0,5}))?( (-|[a-i][0-9]))?( -?[0-9]{0,12})?( -?[0-9]{0,12})?[ \t]{0,2}").unwrap();
     let near = proptest::string::string_regex("([1-8]|[pnbrqkPNBRQK]{1,8}|[1-7][pnbrqkPNBRQK]{1,7}|[pnbrqkPNBRQK]{1,4}[1-6][pnbrqkPNBRQK]{0,3})(/([1-8]|[pnbrqkPNBRQK]{1,8}|[1-7][pnbrqkPNBRQK]{1,7})){7} [wb] (-|K?Q?k?q?) (-|[a-h][36]) (0|[1-9][0-9]{0,10}) (0|[1-9][0-9]{0,10})").unwrap();
     // syntactically valid FEN text over arbitrary (not necessarily legal) placements, optionally
